@@ -81,13 +81,28 @@ def _date_test(test, date_none):
     if isinstance(test, ast.UnaryOp) and isinstance(test.op, ast.Not):
         v = _date_test(test.operand, date_none)
         return None if v is None else (not v)
-    if (isinstance(test, ast.Compare) and len(test.ops) == 1 and isinstance(test.left, ast.Name) and test.left.id == 'date'
-            and isinstance(test.comparators[0], ast.Constant) and test.comparators[0].value is None and date_none is not None):
-        if isinstance(test.ops[0], ast.Is):
-            return date_none
-        if isinstance(test.ops[0], ast.IsNot):
-            return not date_none
+    if isinstance(test, ast.Compare) and len(test.ops) == 1 and date_none is not None:
+        a, b = test.left, test.comparators[0]
+        isdate = lambda n: isinstance(n, ast.Name) and n.id == 'date'
+        isnone = lambda n: isinstance(n, ast.Constant) and n.value is None
+        if (isdate(a) and isnone(b)) or (isnone(a) and isdate(b)):          # either order of the operands
+            if isinstance(test.ops[0], (ast.Is, ast.Eq)):
+                return date_none
+            if isinstance(test.ops[0], (ast.IsNot, ast.NotEq)):
+                return not date_none
     return None
+
+
+def _terminates(stmts):
+    """the statement list always leaves the function (its last statement is a return / raise, or an if whose arms all do)"""
+    if not stmts:
+        return False
+    last = stmts[-1]
+    if isinstance(last, (ast.Return, ast.Raise)):
+        return True
+    if isinstance(last, ast.If):
+        return _terminates(last.body) and _terminates(last.orelse)
+    return False
 
 
 class _Walk:
@@ -120,8 +135,11 @@ class _Walk:
         return out
 
     def _body(self, stmts, definite, depth):
+        """-> True when the walked path has definitely left the function"""
         for s in stmts:
-            self._stmt(s, definite, depth)
+            if self._stmt(s, definite, depth):
+                return True
+        return False
 
     def _calls(self, node, definite, depth):
         for c in ast.walk(node):
@@ -143,27 +161,29 @@ class _Walk:
             v = _date_test(s.test, self.date_none)
             self._calls(s.test, definite, depth)
             if v is True:
-                self._body(s.body, definite, depth)
+                return self._body(s.body, definite, depth)
             elif v is False:
-                self._body(s.orelse, definite, depth)
+                return self._body(s.orelse, definite, depth)
             else:
                 dn = self.date_none
-                self._body(s.body, False, depth)
+                t1 = self._body(s.body, False, depth)
                 self.date_none = dn
-                self._body(s.orelse, False, depth)
+                t2 = self._body(s.orelse, False, depth)
                 self.date_none = dn
-            return
+                return bool(t1 and t2)
         if isinstance(s, (ast.For, ast.While)):
             self._body(s.body, False, depth)
             self._body(s.orelse, False, depth)
-            return
+            return False
         if isinstance(s, (ast.With, ast.Try)):
             for blk in ('body', 'orelse', 'finalbody'):
                 self._body(getattr(s, blk, []), definite if blk == 'body' and isinstance(s, ast.With) else False, depth)
-            return
+            return False
         if isinstance(s, (ast.FunctionDef, ast.ClassDef)):
-            return
+            return False
         self._calls(s, definite, depth)
+        if isinstance(s, (ast.Return, ast.Raise)):
+            return True
         tgts = []
         if isinstance(s, ast.Assign):
             tgts = [x for t in s.targets for x in (t.elts if isinstance(t, ast.Tuple) else [t])]
@@ -252,7 +272,16 @@ def _ctor_call(init):
             if isinstance(s, ast.If):
                 rec(s.body, guards + [(s.test, True)])
                 rec(s.orelse, guards + [(s.test, False)])
+                # `if t: return` ... rest   ==   `if not t:` rest      (and the mirror image)
+                if _terminates(s.body) and not _terminates(s.orelse):
+                    guards = guards + [(s.test, False)]
+                elif _terminates(s.orelse) and not _terminates(s.body):
+                    guards = guards + [(s.test, True)]
+                elif _terminates(s.body) and _terminates(s.orelse):
+                    return
                 continue
+            if isinstance(s, (ast.Return, ast.Raise)):
+                return
             if isinstance(s, (ast.For, ast.While, ast.With, ast.Try)):
                 raise_if = [c for c in ast.walk(s) if isinstance(c, ast.Call) and _is_self_attr(c.func, 'magnetic_field')]
                 if raise_if:
@@ -280,8 +309,6 @@ def _eval_guard(guards, lat, lon):
 CARRIED = {'c', 'cd', 'date', 'date_dec', 'epoch', 'model', 'modeldate', 'wmm_filename', 'degree', 'latitude', 'longitude',
            'height', 'frame', 'X', 'Y', 'Z', 'H', 'F', 'I', 'D', 'GV'}            # the state the object model carries (or constants of it)
 SCRATCH = {'k', 'P', 'dP', 'sp', 'cp', 'gh'}                                      # rebuilt from scratch inside every query
-DYNAMIC_WRITES = {"self.__dict__.update(dict.fromkeys(['X', 'Y', 'Z', 'H', 'F', 'I', 'D', 'GV']))": (),
-                  "self.__dict__.update(self.get_properties(self.wmm_filename))": ()}
 OK_DECORATORS = {'property', 'staticmethod', 'classmethod'}
 MUTABLE_CALLS = {'dict', 'list', 'set', 'defaultdict', 'OrderedDict', 'Counter', 'deque', 'WeakKeyDictionary', 'WeakValueDictionary'}
 
@@ -298,6 +325,109 @@ def _mutable_value(v):
         name = f.id if isinstance(f, ast.Name) else f.attr if isinstance(f, ast.Attribute) else ''
         return name in MUTABLE_CALLS
     return False
+
+
+def _literal_names(n):
+    """tuple / list / set literal of string constants -> the strings, else None"""
+    if isinstance(n, (ast.Tuple, ast.List, ast.Set)) and n.elts and all(_str_const(e) is not None for e in n.elts):
+        return [e.value for e in n.elts]
+    return None
+
+
+def _dict_keys(node, M, depth=0):
+    """the key set of a dictionary-valued expression when it can be read off the source, else None:
+    {'a': ..}, dict(zip(<literal names>, ..)), dict.fromkeys(<literal names>[, v]), dict(a=.., b=..), self.<method>(..) whose
+    returned dictionary is built that way (plus .update({..}) / d['k'] = .. on it)"""
+    if depth > 3 or node is None:
+        return None
+    if isinstance(node, ast.Dict):
+        ks = [_str_const(k) if k is not None else None for k in node.keys]
+        return None if any(k is None for k in ks) else ks
+    if isinstance(node, ast.Call):
+        f = node.func
+        if isinstance(f, ast.Name) and f.id == 'dict':
+            if not node.args:
+                return [k.arg for k in node.keywords] if all(k.arg for k in node.keywords) else None
+            a = node.args[0]
+            if len(node.args) == 1 and not node.keywords:
+                if isinstance(a, ast.Call) and isinstance(a.func, ast.Name) and a.func.id == 'zip' and a.args:
+                    return _literal_names(a.args[0])
+                return _dict_keys(a, M, depth + 1)
+            return None
+        if isinstance(f, ast.Attribute) and f.attr == 'fromkeys' and isinstance(f.value, ast.Name) and f.value.id == 'dict' and node.args:
+            return _literal_names(node.args[0])
+        if _is_self_attr(f) and f.attr in M:
+            fn = M[f.attr]
+            rets = [x for x in ast.walk(fn) if isinstance(x, ast.Return)]
+            if len(rets) != 1 or rets[0].value is None:
+                return None
+            r = rets[0].value
+            if not isinstance(r, ast.Name):
+                return _dict_keys(r, M, depth + 1)
+            keys = None
+            for st in fn.body:                     # straight-line construction only
+                touched = any(isinstance(x, ast.Name) and x.id == r.id for x in ast.walk(st))
+                if not touched or st is rets[0]:
+                    continue
+                if isinstance(st, ast.Assign) and len(st.targets) == 1 and isinstance(st.targets[0], ast.Name) and st.targets[0].id == r.id:
+                    keys = _dict_keys(st.value, M, depth + 1)
+                    if keys is None:
+                        return None
+                elif (isinstance(st, ast.Expr) and isinstance(st.value, ast.Call) and isinstance(st.value.func, ast.Attribute)
+                      and st.value.func.attr == 'update' and isinstance(st.value.func.value, ast.Name) and st.value.func.value.id == r.id
+                      and len(st.value.args) == 1 and keys is not None):
+                    more = _dict_keys(st.value.args[0], M, depth + 1)
+                    if more is None:
+                        return None
+                    keys = keys + more
+                elif (isinstance(st, ast.Assign) and len(st.targets) == 1 and isinstance(st.targets[0], ast.Subscript)
+                      and isinstance(st.targets[0].value, ast.Name) and st.targets[0].value.id == r.id
+                      and _str_const(st.targets[0].slice) is not None and keys is not None):
+                    keys = keys + [st.targets[0].slice.value]
+                else:
+                    return None
+            return keys
+    return None
+
+
+def _name_bindings(fn, M):
+    """local names that provably range over a known finite set of attribute names inside a `for`:
+    `for v in (<literal names>)`, `for k, _ in <dict with known keys>.items()`, `for k in <dict with known keys>`
+    -> {id(node inside the loop body): {name: [strings]}} resolved through `lookup(name, node)`"""
+    env = []      # (loop node, variable, names)
+    for loop in [x for x in ast.walk(fn) if isinstance(x, (ast.For, ast.comprehension))]:
+        tgt, it = loop.target, loop.iter
+        names, var = None, None
+        if isinstance(tgt, ast.Name):
+            var = tgt.id
+            names = _literal_names(it) or _dict_keys(it, M)
+            if names is None and isinstance(it, ast.Call) and isinstance(it.func, ast.Attribute) and it.func.attr == 'keys' and not it.args:
+                names = _dict_keys(it.func.value, M)
+        elif isinstance(tgt, ast.Tuple) and len(tgt.elts) == 2 and isinstance(tgt.elts[0], ast.Name):
+            if isinstance(it, ast.Call) and isinstance(it.func, ast.Attribute) and it.func.attr == 'items' and not it.args:
+                var = tgt.elts[0].id
+                names = _dict_keys(it.func.value, M)
+        if var and names is not None:
+            # the variable must not be rebound inside the loop
+            body = loop.body if isinstance(loop, ast.For) else []
+            rebound = any(isinstance(x, ast.Name) and x.id == var and isinstance(x.ctx, ast.Store) for st in body for x in ast.walk(st))
+            if not rebound:
+                env.append((loop, var, names))
+    return env
+
+
+def _resolve_names(arg, node_line, fn, env, local_consts):
+    """the attribute names a setattr/getattr name argument can take, or None (unknown)"""
+    k = _str_const(arg)
+    if k is not None:
+        return [k]
+    if isinstance(arg, ast.Name):
+        for loop, var, names in env:
+            if var == arg.id and isinstance(loop, ast.For) and any(x is arg for st in loop.body for x in ast.walk(st)):
+                return names
+        if arg.id in local_consts:
+            return [local_consts[arg.id]]
+    return None
 
 
 def hidden_state(tree):
@@ -333,6 +463,14 @@ def hidden_state(tree):
                 out.append(f'{type(x).__name__.lower()} {", ".join(x.names)} in {fn.name}')
     selfish = lambda n: isinstance(n, ast.Name) and n.id == 'self'
     for name, fn in M.items():
+        env = _name_bindings(fn, M)
+        # names bound once, at top level, to a string constant
+        local_consts = {}
+        for st in fn.body:
+            if isinstance(st, ast.Assign) and len(st.targets) == 1 and isinstance(st.targets[0], ast.Name) and _str_const(st.value) is not None:
+                nm = st.targets[0].id
+                if sum(1 for x in ast.walk(fn) if isinstance(x, ast.Name) and x.id == nm and isinstance(x.ctx, ast.Store)) == 1:
+                    local_consts[nm] = st.value.value
         top_stores = {}                 # attr -> line of an unconditional (top-level) store in this function
         for st in fn.body:
             if isinstance(st, (ast.Assign, ast.AnnAssign)):
@@ -346,16 +484,19 @@ def hidden_state(tree):
                 f = x.func
                 fname = f.id if isinstance(f, ast.Name) else None
                 if fname in ('setattr', 'delattr') and x.args and selfish(x.args[0]):
-                    k = _str_const(x.args[1]) if len(x.args) > 1 else None
-                    if k is None or k not in declared:
+                    ks = _resolve_names(x.args[1], x.lineno, fn, env, local_consts) if len(x.args) > 1 else None
+                    if ks is None or any(k not in declared for k in ks):
                         out.append(f'{name}: {ast.unparse(x)[:60]}')
-                if fname in ('getattr', 'hasattr') and x.args and selfish(x.args[0]):
-                    k = _str_const(x.args[1]) if len(x.args) > 1 else None
-                    if k is None or k not in declared:
+                if (fname in ('getattr', 'hasattr') and x.args and selfish(x.args[0])) or \
+                        (isinstance(f, ast.Attribute) and f.attr in ('__getattribute__', '__getattr__') and selfish(f.value)):
+                    arg = (x.args[1] if len(x.args) > 1 else None) if fname else (x.args[0] if x.args else None)
+                    ks = _resolve_names(arg, x.lineno, fn, env, local_consts) if arg is not None else None
+                    if ks is None or any(k not in declared for k in ks):
                         out.append(f'{name}: reads undeclared attribute through {ast.unparse(x)[:60]}')
                 if isinstance(f, ast.Attribute) and f.attr in ('update', 'setdefault', 'pop', '__setitem__') and \
                         isinstance(f.value, ast.Attribute) and f.value.attr == '__dict__':
-                    if ast.unparse(x) not in DYNAMIC_WRITES:
+                    ks = _dict_keys(x.args[0], M) if (f.attr == 'update' and len(x.args) == 1 and not x.keywords and selfish(f.value.value)) else None
+                    if ks is None or any(k not in declared for k in ks):
                         out.append(f'{name}: dynamic attribute write {ast.unparse(x)[:70]}')
                 if fname == 'vars' and x.args and selfish(x.args[0]):
                     out.append(f'{name}: vars(self)')
@@ -521,16 +662,44 @@ def _first(body, pred, what):
     raise ExtractError(f'magnetic_field: cannot locate {what}')
 
 
+def _inline_helpers(body, M, depth=0):
+    """replace every top-level statement `self.<helper>()` (a method of the class taking only self, whose value is not used,
+    without return / yield) by the helper's own statements -- one level, so that code moved into a private helper is found
+    where it runs.  Anything else is left as it is (the call then simply executes on the traced object)."""
+    out = []
+    for s in body:
+        c = s.value if isinstance(s, ast.Expr) else None
+        if (isinstance(c, ast.Call) and _is_self_attr(c.func) and c.func.attr in M and not c.args and not c.keywords and depth < 1):
+            fn = M[c.func.attr]
+            plain = (len(fn.args.args) == 1 and not fn.args.vararg and not fn.args.kwarg and not fn.args.kwonlyargs
+                     and not fn.decorator_list
+                     and not any(isinstance(x, (ast.Return, ast.Yield, ast.YieldFrom, ast.Global, ast.Nonlocal)) for x in ast.walk(fn)))
+            if plain:
+                inner = [t for t in fn.body if not (isinstance(t, ast.Expr) and isinstance(t.value, ast.Constant))]
+                out.extend(_inline_helpers(inner, M, depth + 1))
+                continue
+        out.append(s)
+    return out
+
+
 def cuts(src=None):
-    """statement lists cut from WMM.magnetic_field: 'tail' (self.X.. to the end), 'frame' (between the rotation into
-    geodetic axes and self.H), 'derived' (self.H .. end), 'rotate' (self.X/Y/Z assignments), 'lon' (degrees->radians .. the
-    cos/sin(m*lon) recurrence)"""
+    """statement lists cut from WMM.magnetic_field (private helpers called as `self._h()` inlined one level): 'rotate' (the first
+    plain assignments of self.X .. self.Z: rotation into geodetic axes), 'frame' (from there to the LAST statement that
+    assigns self.X, self.Y or self.Z: the frame handling), 'derived' (everything after it; must assign H, F, I, D, GV),
+    'tail' (all three), 'lon' (degrees->radians .. the cos/sin(m*lon) recurrence)"""
     tree = ast.parse(src if src is not None else _src())
-    body = _methods(_cls(tree))['magnetic_field'].body
+    M = _methods(_cls(tree))
+    body = _inline_helpers(M['magnetic_field'].body, M)
     top = lambda s, a: not isinstance(s, (ast.If, ast.For, ast.While)) and _assigns_self(s, a)
     iX = _first(body, lambda s: top(s, 'X'), 'the assignment of self.X')
     iZ = _first(body, lambda s: top(s, 'Z'), 'the assignment of self.Z')
-    iH = _first(body, lambda s: top(s, 'H'), 'the assignment of self.H')
+    xyz = [i for i, s in enumerate(body) if any(_assigns_self(s, a) for a in 'XYZ')]
+    iH = xyz[-1] + 1                   # the derived elements are whatever is computed after X, Y, Z have their final values
+    missing = [a for a in ('H', 'F', 'I', 'D', 'GV') if not any(_assigns_self(s, a) for s in body[iH:])]
+    if missing:
+        raise ExtractError(f'magnetic_field: no assignment of self.{missing[0]} after the last assignment of self.X/Y/Z')
+    if any(_assigns_self(s, a) for s in body[:iH] for a in ('H', 'F', 'I', 'D', 'GV')):
+        raise ExtractError('magnetic_field: a derived element is assigned before X, Y, Z have their final values')
     if not iX <= iZ < iH:
         raise ExtractError('magnetic_field: unexpected order of the X/Z/H assignments')
     isnm = lambda t: isinstance(t, ast.Name) and t.id in ('latitude', 'longitude')
